@@ -13,16 +13,18 @@ MUTS = {
  'N1-strip-before-control-chars': (['C04', 'C05'], F,
     '    url = CONTROL_CHARS_RE.sub("", url)\n    url = url.strip()\n    url = upper_quoted(url)\n',
     '    url = url.strip()\n    url = CONTROL_CHARS_RE.sub("", url)\n    url = upper_quoted(url)\n'),
- 'N2-protocol-test-before-cleaning': (['C04', 'C05'], F,
+ # (protocol test before ANY cleaning fails the suite's '   http://lemonde.fr   '; this one does not)
+ 'N2-protocol-test-before-control-chars': (['C04', 'C05'], F,
     '    url = CONTROL_CHARS_RE.sub("", url)\n    url = url.strip()\n    url = upper_quoted(url)\n\n    has_protocol = PROTOCOL_RE.match(url)\n',
-    '    has_protocol = PROTOCOL_RE.match(url)\n    url = CONTROL_CHARS_RE.sub("", url)\n    url = url.strip()\n    url = upper_quoted(url)\n\n'),
+    '    url = url.strip()\n    has_protocol = PROTOCOL_RE.match(url)\n    url = CONTROL_CHARS_RE.sub("", url)\n    url = url.strip()\n    url = upper_quoted(url)\n\n'),
  'N3-8080-is-a-default-port-too': (['C05', 'C04'], F,
     '    if port == 80 or port == 443:\n', '    if port == 80 or port == 443 or port == 8080:\n'),
  'N4-userinfo-dropped-only-with-a-user': (['C04', 'C05'], F,
     '    if strip_authentication:\n        user = None\n        password = None\n',
     '    if strip_authentication and user:\n        user = None\n        password = None\n'),
- 'N5-protocol-is-colon-slash-slash': (['C04', 'C05'], F,
-    '    has_protocol = PROTOCOL_RE.match(url)\n', '    has_protocol = "://" in url\n'),
+ # ('"://" in url' fails a test of the suite; the pre-fix PROTOCOL_RE — colon optional — does not)
+ 'N5-protocol-colon-optional': (['C05', 'C04'], F,
+    '    has_protocol = PROTOCOL_RE.match(url)\n', '    has_protocol = re.match(r"^[a-zA-Z]{0,64}:?//", url)\n'),
  'N6-unparseable-returns-cleaned-url': (['C05', 'C04'], F,
     '    except ValueError:\n        return original_url_arg\n', '    except ValueError:\n        return url\n'),
 }
